@@ -226,7 +226,7 @@ pub fn run(ctx: &RunCtx) -> i32 {
         return 1;
     }
     let (cap, max_bound, random_after, cases) = match ctx.tier {
-        Tier::Quick => (2500u64, 2usize, 300u64, 64u32),
+        Tier::Quick => (1200u64, 2usize, 500u64, 176u32),
         Tier::Thorough => (20_000, 3, 2000, 400),
     };
     let (mut stats, mut failure) = run_sharded(ctx, "sets", cases, strategy, |c, st, counting| {
